@@ -6,6 +6,8 @@ import (
 	"fmt"
 	"io"
 	"net/http"
+	"net/http/httptest"
+	"os"
 	"strings"
 	"sync"
 	"time"
@@ -13,7 +15,9 @@ import (
 	"github.com/bitcoin-sv/block-headers-service/config"
 	"github.com/bitcoin-sv/block-headers-service/domains"
 	"github.com/bitcoin-sv/block-headers-service/notification"
+	"github.com/bitcoin-sv/block-headers-service/transports/websocket"
 	"github.com/centrifugal/centrifuge"
+	centrifugeclient "github.com/centrifugal/centrifuge-go"
 )
 
 // C11 binding: recording channels registered on the REAL Notifier, the real websocket channel with a recording
@@ -153,6 +157,7 @@ type NotifyRig struct {
 	recs    map[string]*recorder
 	release chan struct{}
 	order   []string
+	cleanup []func()
 }
 
 // attach registers the channels on the stack's real notifier; variant selects which channel misbehaves.
@@ -177,7 +182,57 @@ func (r *Replayer) attachNotify(variant int) *NotifyRig {
 	s.Svc.Notifier.AddChannel(wh)
 	// 5. one more plain recorder registered last (a failing/blocking channel before it must not suppress it)
 	s.Svc.Notifier.AddChannel(&recChan{rec: mk("last"), mode: "ok"})
+	// 6. (VERIF_WSREAL=1, every third variant) the real websocket server with its centrifuge node as the publisher, and a
+	// real centrifuge client subscribed to the `headers` channel: what a subscriber RECEIVES, not what is handed to Publish
+	if os.Getenv("VERIF_WSREAL") == "1" && variant%3 == 0 {
+		if err := rig.attachRealWebsocket(s, mk("ws-subscriber")); err != nil {
+			rig.recs["ws-subscriber"].add(evRec{Op: "?websocket " + err.Error()})
+		}
+	}
 	return rig
+}
+
+func (rig *NotifyRig) attachRealWebsocket(s *Stack, rec *recorder) error {
+	ws, err := websocket.NewServer(&s.log, s.Svc, false)
+	if err != nil {
+		return err
+	}
+	ws.SetupEntrypoint(s.Engine)
+	if err := ws.Start(); err != nil {
+		return err
+	}
+	srv := httptest.NewServer(s.Engine)
+	url := "ws" + strings.TrimPrefix(srv.URL, "http") + "/connection/websocket"
+	cl := centrifugeclient.NewJsonClient(url, centrifugeclient.Config{})
+	sub, err := cl.NewSubscription("headers")
+	if err != nil {
+		return err
+	}
+	sub.OnPublication(func(e centrifugeclient.PublicationEvent) {
+		ev, _ := fromJSON(e.Data)
+		rec.add(ev)
+	})
+	ready := make(chan struct{}, 1)
+	sub.OnSubscribed(func(centrifugeclient.SubscribedEvent) {
+		select {
+		case ready <- struct{}{}:
+		default:
+		}
+	})
+	if err := cl.Connect(); err != nil {
+		return err
+	}
+	if err := sub.Subscribe(); err != nil {
+		return err
+	}
+	select {
+	case <-ready:
+	case <-time.After(5 * time.Second):
+		return errors.New("subscription timeout")
+	}
+	s.Svc.Notifier.AddChannel(notification.NewWebsocketChannel(&s.log, ws.Publisher(), s.Cfg.Websocket))
+	rig.cleanup = append(rig.cleanup, func() { cl.Close(); srv.Close(); _ = ws.Shutdown() })
+	return nil
 }
 
 // waitCounts waits until every recorder has at least want events (or the deadline passes).
